@@ -11,7 +11,7 @@ Proof. reflexivity. Qed.
 
 Lemma seed_is_spec i tweak : i < 2^32 -> tweak < 2^32 -> seed_of i tweak = spec_seed i tweak.
 Proof.
-  intros Hi Ht. unfold seed_of, spec_seed, seed_mult, w32. destruct lits_hash as (-> & _).
+  intros Hi Ht. unfold seed_of, spec_seed, seed_mult. rewrite !w32_mod. destruct lits_hash as (-> & _).
   rewrite (N.mod_small i), (N.mod_small tweak) by assumption.
   rewrite N.add_mod_idemp_l by lia. reflexivity.
 Qed.
@@ -36,7 +36,7 @@ Lemma indices_are_spec m d k :
   (In k (indices m d) <-> spec_selects (length (m_bytes m)) (m_nhash m) (m_tweak m) d k).
 Proof.
   intros Hok Hn Ht. unfold indices, spec_selects. rewrite in_map_iff.
-  assert (W : w32 (m_nhash m) = m_nhash m) by (apply N.mod_small; exact Hn).
+  assert (W : w32 (m_nhash m) = m_nhash m) by (rewrite w32_mod; apply N.mod_small; exact Hn).
   split.
   - intros (i & <- & Hi). apply in_hash_nums in Hi. rewrite W in Hi. exists i. split; [exact Hi|].
     apply bit_index_is_spec; try assumption. lia.
@@ -64,7 +64,7 @@ Qed.
 Lemma set_bit_Bytes v idx : Bytes v -> Bytes (set_bit v idx).
 Proof.
   intros Hv. unfold set_bit. apply upd_Bytes; [exact Hv|]. intros b Hb. apply lor_byte; [exact Hb|].
-  unfold w8. apply N.mod_lt. lia.
+  rewrite w8_mod. apply N.mod_lt. lia.
 Qed.
 
 Lemma fold_set_bits_Bytes js : forall v, Bytes v -> Bytes (fold_left set_bit js v).
@@ -146,7 +146,7 @@ Qed.
 Theorem outpoint_is_bip37 txid index : index < 2^32 -> outpoint_bytes txid index = spec_outpoint txid index.
 Proof.
   intros H. unfold outpoint_bytes, spec_outpoint. rewrite outpoint_width. f_equal.
-  unfold w32. rewrite (N.mod_small index) by exact H.
+  rewrite w32_mod. rewrite (N.mod_small index) by exact H.
   change (N.to_nat 4) with 4%nat. cbn [le_bytes].
   rewrite !N.div_div by lia. reflexivity.
 Qed.
